@@ -172,6 +172,8 @@ def cases(tier, seed):
                                     for od in (("1", "2") if quick else ORDERS):
                                         if quick and (od == "2" and (g == "long26" or cot != "dense")):
                                             continue
+                                        if quick and m == "rk23" and (g == "long26" or od == "2"):
+                                            continue        # thousands of third-order steps per run: thorough tier only
                                         cfgG = _case(fam, "fn" if fam == "logistic" else "edit", m, b, g, rg, cot, od,
                                                      pl, seed)
                                         cfgG["opts"] = "tight"
